@@ -381,11 +381,12 @@ func (rl *respDeserializer) peekBulkLine(length int) (line respBulkString, valid
 		panic("already determined the next line")
 	}
 
-	rl.nextPos = rl.pos + length + 2
-	if rl.nextPos > len(rl.content) {
+	// the length comes from the wire: check it against what has arrived before doing arithmetic with it
+	if length < 0 || length > len(rl.content)-rl.pos-2 {
 		valid = false
 		return
 	}
+	rl.nextPos = rl.pos + length + 2
 
 	if rl.content[rl.nextPos-2] != '\r' || rl.content[rl.nextPos-1] != '\n' {
 		rl.l.Errorf("bulk line does not have expected ending on line %d", rl.lineNumber)
